@@ -145,6 +145,22 @@ macro_rules! extends_cycle_harness {
     };
 }
 
+// @verif props=C06 tier=experimental cap=900 group=core fns=Executor::load_blocks
+/// (cost probe) one load_blocks call
+#[kani::proof]
+#[kani::unwind(6)]
+#[kani::stub(std::hash::RandomState::new, crate::verif_common::random_state_stub)]
+#[kani::stub(alloc::fmt::format, crate::verif_common::format_stub)]
+#[kani::stub(crate::vm::state::State::get_template, get_template_model)]
+fn c06_probe_single_load_blocks() {
+    let env: &'static Environment<'static> = Box::leak(Box::new(Environment::empty()));
+    let mut state = State::new_for_env(env);
+    let r1 = Executor::load_blocks(Value::from("./b"), &mut state);
+    assert!(r1.is_ok());
+    kani::cover!(true);
+    core::mem::forget((r1, state));
+}
+
 // @verif-block props=C06 tier=experimental cap=900 group=core doc=a_template_that_is_already_part_of_the_inheritance_chain_is_refused_when_`extends`_reaches_it_again_-_whether_the_name_is_spelled_as_the_loaded_template_is_called_("x/b")_or_in_a_relative_form_the_path-join_callback_resolves_to_the_same_template_("./b"):_the_second_load_blocks_is_an_error_(otherwise_a_->_b_->_a_->_..._never_terminates);_State::get_template_replaced_by_a_model_that_resolves_every_request_to_the_template_named_"x/b"
 extends_cycle_harness!(c06_extends_cycle_same_spelling, "x/b", "x/b");
 extends_cycle_harness!(c06_extends_cycle_relative_spelling, "./b", "./b");
